@@ -1,6 +1,7 @@
 #!/bin/bash
-# quiet-check of the committed tree: quick at three seeds (C03 at one more seed), then every thorough command once
+# quiet-check of the committed tree, part A: quick at three seeds (C03 at one more seed), then the cheaper thorough commands
 cd "$(dirname "$0")/.."
+export VERIF_NPROC=${VERIF_NPROC:-8}
 tools/multiseed.sh "1 2 3" "C01 C02 C04 C05 C06 C07 C08 C09 C10 C11 C12 C13 C14 C15 C16 C17 C18 C19 C20" quick
 tools/multiseed.sh "2" "C03" quick
-tools/multiseed.sh "1" "C20 C01 C05 C04 C14 C10 C12 C07 C08 C17 C18 C19 C15 C16 C13 C09 C06 C11 C02 C03" thorough
+tools/multiseed.sh "1" "C20 C01 C05 C04 C14 C10 C12 C07 C08 C17 C18 C19 C15 C16" thorough
